@@ -576,11 +576,11 @@ fn main() {
     // F6: VarRemover as a state machine, explicit-state search with merging on the implementation state
     if ctx.wants("varremover-xs") {
         let t = std::time::Instant::now();
-        let depth = ctx.pick(7usize, 9usize);
+        let depth = ctx.pick(7usize, 8usize);
         let a = &alpha;
         let deadline = std::time::Instant::now() + std::time::Duration::from_secs_f64(ctx.remaining_s().min(ctx.pick(40.0, 3600.0)));
         let init = Fp { orig: drain(&[]), trans: drain(&[]) };
-        let (mut acc, stats) = vcore::xs::bfs(a.len(), depth, ctx.pick(6_000_000, 80_000_000), ctx.threads, deadline, init, |h, acc| {
+        let (mut acc, stats) = vcore::xs::bfs(a.len(), depth, ctx.pick(6_000_000, 25_000_000), ctx.threads, deadline, init, |h, acc| {
             let ops: Vec<Op> = h.iter().map(|j| a[*j as usize].clone()).collect();
             check_varremover(u64::MAX, &ops, acc, true)
         });
